@@ -9,6 +9,8 @@ import (
 	"testing"
 	"testing/synctest"
 	"time"
+
+	"github.com/segmentio/kafka-go/zzverif/vsync"
 )
 
 type Result struct {
@@ -32,6 +34,8 @@ func Run(t *testing.T, grace time.Duration, f func()) (res Result) {
 		}
 	}()
 	synctest.Test(t, func(t *testing.T) {
+		// pooled codec objects may hold channels of the bubble that created them
+		vsync.ResetPools()
 		t0 := time.Now()
 		func() {
 			defer func() {
